@@ -114,7 +114,7 @@ func evalURIPair(c CaseURIPair) Result {
 			skip = fPort
 		case "scheme":
 			skip = fSch
-		case "param-value", "onesided-user", "onesided-ttl", "onesided-method", "onesided-maddr":
+		case "param-value", "onesided-user", "onesided-ttl", "onesided-method", "onesided-maddr", "onesided-beyond-100":
 			skip = fPar
 		case "hdr-value", "hdr-name", "hdr-added":
 			skip = fHdr
@@ -187,7 +187,7 @@ func genURIPair(t *rapid.T) CaseURIPair {
 		isTel := asciiLower(a.Scheme) == "tel:"
 		opts = append(opts, "host")
 		if !isTel {
-			opts = append(opts, "port", "scheme", "onesided-user", "onesided-ttl", "onesided-method", "onesided-maddr", "hdr-added")
+			opts = append(opts, "port", "scheme", "onesided-user", "onesided-ttl", "onesided-method", "onesided-maddr", "hdr-added", "onesided-beyond-100")
 			if a.HasUser {
 				opts = append(opts, "user", "user-case")
 				if a.HasPass {
@@ -287,6 +287,23 @@ func genURIPair(t *rapid.T) CaseURIPair {
 		case "hdr-added":
 			b.HasHdrs = true
 			b.Hdrs = append(b.Hdrs, KV{Name: B("zzadded"), HasEq: true, Val: B("1")})
+		case "onesided-beyond-100":
+			// both URIs get the same 100+ ordinary parameters; only b has a user/ttl/method/maddr one after them
+			var many []KV
+			n := rapid.IntRange(99, 103).Draw(t, "nmany")
+			for i := 0; i < n; i++ {
+				many = append(many, KV{Name: B(fmt.Sprintf("zp%d", i)), HasEq: true, Val: B(fmt.Sprintf("%d", i))})
+			}
+			var keep []KV
+			for _, p := range a.Params {
+				switch asciiLower(p.Name) {
+				case "user", "ttl", "method", "maddr":
+				default:
+					keep = append(keep, p)
+				}
+			}
+			c.A.Params = append(append([]KV{}, many...), keep...)
+			b.Params = append(append(append([]KV{}, many...), keep...), KV{Name: recase(t, pick(t, "special", "user", "ttl", "method", "maddr")), HasEq: true, Val: B("v")})
 		}
 	default:
 		c.Rel = "unrelated"
